@@ -1,7 +1,7 @@
 from checks import durab_common as dc
 
 SPEC = dc.spec(
-    "C05", ["C05_no_commit_lost", "C05_commit_order", "C05_only_intact"], "Durab.c05_prop", 4, 40,
+    "C05", ["C05_no_commit_lost", "C05_commit_order", "C05_only_intact"], "Durab.c05_prop", 4, 24,
     level_text="Coq theorems, for EVERY list over the arms of the WAL writer loop and the writers (enqueue, timer/requested/capacity "
                "flush, acknowledgement, checkpoint with or without rotation, shutdown) and EVERY crash prefix outside a continuation "
                "window: C05_no_commit_lost (recovery succeeds and every committed TG is visible), C05_commit_order (recovery is exactly "
